@@ -393,7 +393,26 @@ def check_cfg_same(cx, facts, rep):
                 continue
             Y = preds[0][1]
             if ev.kind == 'branch':
-                if root_positive_test(ev.node['cond'], Y) and ev.node.get('else') is None:
+                pos = root_positive_test(ev.node['cond'], Y)
+                if not pos:
+                    # the same test through a helper / closure / `.map(..)`: decided on the facts the condition establishes
+                    try:
+                        c_ = ev.node['cond']
+                        if c_['k'] == 'Let':
+                            from ..facts import expand_some
+                            ats = expand_some(facts.pat_atom(c_['pat'], c_['expr'], True, ev.scope, fw))
+                        else:
+                            ats = facts.cond_atoms(c_, True, ev.scope, fw)
+                    except Exception:
+                        ats = []
+                    key = ('path', 'Trait::%s' % Y)
+                    for a in ats:
+                        if a[0] == 'some' and a[-1] is True and isinstance(a[1], tuple) and a[1][0] == 'mcall' and a[1][2] in ('get', 'get_mut', 'remove') \
+                                and len(a[1]) == 4 and a[1][3] in (key, ('ref', key)):
+                            pos = True
+                        if a[0] == 'eq' and a[-1] is True and key in a[1:3]:
+                            pos = True
+                if pos and ev.node.get('else') is None:
                     rep.ok('CFG-SAME', '%s|%s' % (f.qname, inst))
                 else:
                     rep.bad('CFG-SAME', f.qname, inst, 'cfg(feature = "%s") statement in the crate root is not an else-less `if` that can only hold for trait %s itself (`%s`): with the feature off the other traits are treated differently' % (
